@@ -5,19 +5,24 @@ import PcfgVerif.Properties.EditCore
 `gText rows` is a grammar.txt whose lines are `labels<TAB>probability`.  The three filters are shown
 to be plain `List.filter`s on the rows: survivors keep their order and are byte-identical
 (structure and probability text), nothing else is produced.  "No other file touched" and `--copy`
-are file-system facts checked by the harness (directory hashes).  The length claim: a kept
-non-Markov structure has its label total within the bounds; labels A/D/O/K state the length of
-their values and Y is 4, so every guess has that length — except for `X`, whose label number is not
-a length (known finding).
+are file-system facts checked by the harness (directory hashes).  The length claim: every structure
+gets a pair (shortest, longest) of guess lengths.  Labels A/D/O/K state the length of their values
+and Y is 4, so they add the same number to both; an `X` label contributes between the shortest and
+the longest context value of the ruleset (times its number), so a structure is kept only if even its
+shortest guess reaches the minimum and even its longest stays within the maximum.  Hence every guess
+of a kept non-Markov structure is within the bounds (`C20_guess_lengths`), and a removed structure
+has a guess outside them (`C20_only_failing_removed`).
 -/
 namespace Pcfg.C20
 
-/-- min_length and max_length: exactly the rows whose label total passes, in order, unchanged -/
-theorem C20_length_filter (mn mx : Nat) (rows : List (List CPs × CPs))
-    (h : ∀ r ∈ rows, r.1 ≠ [] ∧ (∀ t ∈ r.1, IsLabel t) ∧ IsProbText r.2 ∧ (totalLen r.1).isSome) :
-    (editLengthLines mn mx (textLines (gText rows))).map List.flatten =
-      some (gText (rows.filter fun r => Generated.EditRules.keepLen ((totalLen r.1).getD 0) mn mx)) :=
-  editLength_filter mn mx rows h
+/-- min_length and max_length: exactly the rows whose (shortest, longest) guess length passes, in
+order, unchanged; `ctx` = shortest and longest context value of the ruleset -/
+theorem C20_length_filter (ctx : Nat × Nat) (mn mx : Nat) (rows : List (List CPs × CPs))
+    (h : ∀ r ∈ rows, r.1 ≠ [] ∧ (∀ t ∈ r.1, IsLabel t) ∧ IsProbText r.2 ∧ (totalLen ctx r.1).isSome) :
+    (editLengthLines ctx mn mx (textLines (gText rows))).map List.flatten =
+      some (gText (rows.filter fun r =>
+        Generated.EditRules.keepLen ((totalLen ctx r.1).getD (0, 0)).1 ((totalLen ctx r.1).getD (0, 0)).2 mn mx)) :=
+  editLength_filter ctx mn mx rows h
 
 /-- `--terminal_set` -/
 theorem C20_terminal_filter (allowed : List Nat) (rows : List (List CPs × CPs))
@@ -38,18 +43,38 @@ theorem C20_labels_intact (labels : List CPs) (prob : CPs) (hl : ∀ t ∈ label
     (hp : IsProbText prob) : tokenize (gLine labels prob) = labels :=
   tokenize_gLine labels prob hl hp
 
-/-- a kept structure: the Markov structure (total 0), or min ≤ total and (no max or total ≤ max) -/
-theorem C20_length_bounds (total mn mx : Nat) :
-    Generated.EditRules.keepLen total mn mx = true ↔
-      (total = 0 ∨ (mn ≤ total ∧ (mx = 0 ∨ total ≤ mx))) :=
-  keepLen_spec total mn mx
+/-- a kept structure: the Markov structure (longest 0), or min ≤ shortest and (no max or longest ≤ max) -/
+theorem C20_length_bounds (lo hi mn mx : Nat) :
+    Generated.EditRules.keepLen lo hi mn mx = true ↔
+      (hi = 0 ∨ (mn ≤ lo ∧ (mx = 0 ∨ hi ≤ mx))) :=
+  keepLen_spec lo hi mn mx
 
-/-- the length attributed to a label: its number for A, D, O, K (and X), 4 for Y, 0 otherwise (M) -/
-theorem C20_label_length (c : Nat) (ds : CPs) (hc : isUpperAZ c = true) (hds : ds ≠ []) :
-    tokenLen (c :: ds) =
-      if c = 0x59 then some 4
-      else if c = 0x41 ∨ c = 0x44 ∨ c = 0x4f ∨ c = 0x4b ∨ c = 0x58 then digitsVal ds
-      else some 0 :=
-  tokenLen_spec c ds hc hds
+set_option linter.unusedVariables false in
+/-- the (shortest, longest) length attributed to a label: its number for A, D, O, K; 4 for Y; for X
+the number times the shortest / longest context value; 0 otherwise (M) -/
+theorem C20_label_length (ctx : Nat × Nat) (c : Nat) (ds : CPs) (hc : isUpperAZ c = true) (hds : ds ≠ []) :
+    tokenLen ctx (c :: ds) =
+      if c = 0x59 then some (4, 4)
+      else if c = 0x41 ∨ c = 0x44 ∨ c = 0x4f ∨ c = 0x4b then (digitsVal ds).map fun n => (n, n)
+      else if c = 0x58 then (digitsVal ds).map fun n => (n * ctx.1, n * ctx.2)
+      else some (0, 0) :=
+  tokenLen_spec ctx c ds hc hds
+
+/-- every guess (one admissible value length per label) of a kept non-Markov structure has a length
+within the requested bounds -/
+theorem C20_guess_lengths (ctx : Nat × Nat) (toks : List CPs) (ls : List Nat) (mn mx lo hi : Nat)
+    (hlen : ls.length = toks.length)
+    (h : ∀ i (hi : i < toks.length), LabelLenOK ctx toks[i] (ls[i]'(by omega)))
+    (ht : totalLen ctx toks = some (lo, hi)) (hnm : hi ≠ 0)
+    (hk : Generated.EditRules.keepLen lo hi mn mx = true) :
+    mn ≤ ls.sum ∧ (mx = 0 ∨ ls.sum ≤ mx) :=
+  kept_guess_in_bounds ctx toks ls mn mx lo hi hlen h ht hnm hk
+
+/-- a removed structure is not the Markov one and has a guess (all context values shortest, or all
+longest) below the minimum or above the given maximum -/
+theorem C20_only_failing_removed (lo hi mn mx : Nat)
+    (hk : Generated.EditRules.keepLen lo hi mn mx = false) :
+    hi ≠ 0 ∧ (lo < mn ∨ (mx ≠ 0 ∧ mx < hi)) :=
+  removed_has_failing_guess lo hi mn mx hk
 
 end Pcfg.C20
